@@ -7,7 +7,7 @@ REG = dict(
     engine="E3-sched",
     technique="stateless deviation-bounded exhaustive exploration of thread schedules of the real nREPL interrupt/close handling, worker dequeue, flag reset and per-step flag check under a controlled scheduler, with replay",
     text="Same engine as C30. Scenarios: an endless eval interrupted after it started, an interrupt sent right behind an eval, a finite eval followed by an interrupt and a second "
-         "eval, an idle interrupt followed by load-file, completions and an eval, two queued evals and an interrupt, an endless eval and `close`, two sessions with one interrupted, an endless eval and a dropped connection. EVERY schedule with "
+         "eval, an idle interrupt followed by load-file, completions and an eval, two queued evals and an interrupt, an endless eval and `close`, two sessions with one interrupted, an interrupt for a session that outlived a closed one and a later clone, an endless eval and a dropped connection. EVERY schedule with "
          "at most 2 (quick) / 3 (thorough) deviations is executed. Oracle on the recorded trace: if, when the handler's store of the interrupt flag ran, a worker had dequeued an "
          "eval and later executes at least one more interpreter step of it, that eval must end with status `interrupted` (and the run must become quiescent: prompt); an eval that "
          "was not yet dequeued when the store ran must not end `interrupted`; evals of other sessions are unaffected; after `close`/connection drop the running eval ends.",
@@ -57,6 +57,10 @@ SCENARIOS = {
                                                  {"send": {"op": "load-file", "id": "l1", "session": "garden-1", "file": "let i = 0 while i < 2 { i += 1 } i", "file-path": "/verif_scratch/l.gdn"}},
                                                  {"send": {"op": "completions", "id": "k1", "session": "garden-1", "prefix": "prin"}}, ev("e2", "garden-1", "2 + 2")],
                               evals={"e1": "garden-1", "l1": "garden-1", "e2": "garden-1"}, endless=set()),
+    # session ids after a close: a session cloned later must not take over the id of a session that is still running an eval
+    "I9-clone-after-close": dict(script=clone(1) + clone(2) + [{"send": {"op": "close", "id": "x1", "session": "garden-1"}}, {"await": {"counter": "sent.ch0", "n": 3}},
+                                                           ev("e1", "garden-2", LOOP), after_steps(3)] + [{"send": {"op": "clone", "id": "c3"}}, {"await": {"counter": "sent.ch0", "n": 4}},
+                                                           intr("i1", "garden-2")], evals={"e1": "garden-2"}, endless={"e1"}, target="garden-2"),
     # connection dropped while an endless eval runs
     "I7-drop": dict(script=clone(1) + [ev("e1", "garden-1", LOOP), after_steps(3), {"drop_conn": True}], evals={"e1": "garden-1"}, endless={"e1"}),
 }
@@ -75,12 +79,13 @@ def analyse(res, scn):
     info = {}
     for rid, session in scn["evals"].items():
         deq = [at for (at, task, text) in res["notes"] if text == f"dequeued {rid}"]
+        deq_task = [task for (at, task, text) in res["notes"] if text == f"dequeued {rid}"]
         done_at, status = None, None
         for k, m in enumerate(res["responses"]):
             if m.get("id") == rid and "done" in schedx.status_of(m):
                 done_at = sent[k] if k < len(sent) else None
                 status = schedx.status_of(m)
-        info[rid] = {"session": session, "worker": worker_of.get(session), "dequeued_at": deq[0] if deq else None, "done_at": done_at, "status": status}
+        info[rid] = {"session": session, "worker": deq_task[0] if deq_task else worker_of.get(session), "dequeued_at": deq[0] if deq else None, "done_at": done_at, "status": status}
     stores = [(i, label) for (i, task, label, to) in ops if label in STORE_LABELS]
     return ops, info, stores
 
@@ -102,7 +107,7 @@ def check_exec(ctx, name, scn, res, prefix, cost):
             return
     ops, info, stores = analyse(res, scn)
     # which session does each store target? interrupt/close name the session in the request; all scenarios target garden-1
-    target_session = "garden-1"
+    target_session = scn.get("target", "garden-1")
     for (si, label) in stores:
         what = STORE_LABELS[label]
         # the eval in flight on the target session's worker when the store ran
@@ -192,7 +197,7 @@ def model_conformance(ctx, projected, horizon):
 
 def run(ctx):
     bound = 2 if ctx.quick else 3
-    budget = float(os.environ.get("GV_SCHED_BUDGET", 45 if ctx.quick else 1500))
+    budget = float(os.environ.get("GV_SCHED_BUDGET", 90 if ctx.quick else 1500))
     horizon = 100
     ctx.bound("deviation_bound_requested", bound)
     ctx.bound("step_horizon", horizon)
@@ -245,11 +250,14 @@ def run(ctx):
     # pass 2: deeper bounds, in priority order, within the time budget
     final = dict(first)
     for depth in range(2, bound + 1):
-        for idx, name in enumerate(names):
+        # expected number of schedules: bound-1 count to the power of the depth; smallest first, shares in proportion
+        size = lambda n: max(first[n].execs, 2) ** depth
+        order = sorted(names, key=lambda n: (n != "I2-behind", size(n)))
+        for idx, name in enumerate(order):
             left = t0 + budget - time.time()
             if left <= 0:
                 break
-            share = time.time() + left / (len(names) - idx)
+            share = time.time() + left * size(name) / sum(size(n) for n in order[idx:])
             ex = explore(name, depth, share)
             if ex.completed_bound >= depth:
                 completed[name] = depth
@@ -259,6 +267,7 @@ def run(ctx):
     for name in names:
         ex = final[name]
         total_execs += ex.execs
+        ctx.cov["cross_checked_in_fresh_process"] = ctx.cov.get("cross_checked_in_fresh_process", 0) + ex.cross_checked
         total_points += ex.points
         outcomes += len(ex.outcomes)
         ctx.outcome(f"{name}: executions", ex.execs)
@@ -277,7 +286,7 @@ def run(ctx):
     ctx.bound("deviation_bound_completed_all_scenarios", min(completed))
     if min(completed) < 1:
         raise Machinery(f"time budget too small: completed deviation bounds {completed}")
-    if seen_interrupted == 0:
+    if seen_interrupted == 0 and not ctx.violations:
         raise Machinery("vacuous: no execution had an interrupted eval")
     ctx.add(states=total_execs, transitions=total_points, evaluations=total_execs, nontrivial=outcomes)
     ctx.assume("sequentially consistent interleaving of the instrumented points; virtual time")
